@@ -148,6 +148,8 @@ func genTimedScenario(r *Rng, v6 bool) (cScenario, []string) {
 		kind, name := "can", "cancel"
 		if pat == 5 {
 			kind, name = "clo", "close"
+		} else if r.Chance(1, 2) {
+			kind, name = "cdl", "ctx-deadline"
 		}
 		k := r.Range(0, kmax)
 		t, where := gridInstant(r, sc.T, k)
@@ -174,8 +176,18 @@ func genTimedScenario(r *Rng, v6 bool) (cScenario, []string) {
 			sc.evs = append(sc.evs, cEvent{t: t, kind: kinds[r.Intn(len(kinds))], sync: syncFlag()})
 		}
 	}
-	if !r.Chance(1, 16) {
-		sort.SliceStable(sc.evs, func(i, j int) bool { return sc.evs[i].t < sc.evs[j].t })
+	hasCdl := false
+	for _, e := range sc.evs {
+		hasCdl = hasCdl || e.kind == "cdl"
+	}
+	if hasCdl || !r.Chance(1, 16) {
+		// a context deadline fires when the clock reaches it: it is the first event of its instant
+		sort.SliceStable(sc.evs, func(i, j int) bool {
+			if sc.evs[i].t != sc.evs[j].t {
+				return sc.evs[i].t < sc.evs[j].t
+			}
+			return sc.evs[i].kind == "cdl" && sc.evs[j].kind != "cdl"
+		})
 	} else if len(sc.evs) > 1 {
 		tags = append(tags, "unsorted-script")
 	}
@@ -212,6 +224,11 @@ func genTimedScenario(r *Rng, v6 bool) (cScenario, []string) {
 	return sc, tags
 }
 
+func cliGenHistory(r *Rng, v6 bool) cliHistory {
+	return cliHistory{v6: v6, T: timedTs[r.Intn(len(timedTs))], n: r.Range(1, 3), calls: r.Range(2, 4),
+		mut: []string{"x", "o", "xo"}[r.Intn(3)]}
+}
+
 // enumTimed: the exhaustive small-scope part: every (T, n) of the grid with
 // silence, and for T=1s every n, every try k, every grid offset, each of
 // accept / cancel / close, applied at quiescence.
@@ -228,7 +245,7 @@ func enumTimed(v6 bool) func(emit func(string)) {
 				for k := 0; k < E; k++ {
 					s, d := schedAt(T, k), schedAt(T, k+1)
 					for _, t := range []int64{s, s + 1, s + (d-s)/2, d - 1, d} {
-						for _, kind := range []string{"acc", "can", "clo", "rej"} {
+						for _, kind := range []string{"acc", "can", "cdl", "clo", "rej"} {
 							for _, sync := range []bool{true, false} {
 								if T != 1_000_000_000 && !sync {
 									continue
@@ -255,6 +272,10 @@ func init() {
 		register(&Stream{
 			Name: name,
 			Gen: func(r *Rng, thorough bool) (string, []string) {
+				if r.Chance(1, 12) {
+					h := cliGenHistory(r, v6)
+					return h.line(), []string{"history-same-message-mutated", "mut=" + h.mut}
+				}
 				sc, tags := genTimedScenario(r, v6)
 				return sc.line(), tags
 			},
